@@ -215,6 +215,38 @@ def delay_doc(rng):
     return doc, meta, 40 * max(slots) + 150
 
 
+def window_doc(rng):
+    """the window between timer expiry and delivery, held open by a schedule hook, with the interpreter thread executing a <send delay>
+    or a <cancel> inside it: a trigger event d0 and, 5-25 ms behind it, a second timer whose callback sits in the window while d0 is
+    being processed (the timer thread runs one callback at a time, so the second callback starts when d0 has been handed over)"""
+    hold = rng.choice([30, 40, 60])
+    sends, sid, cancels, trans, body = {}, {}, {}, "", ""
+    base, nxt = 0, 0
+    for pair in range(rng.randint(1, 2)):
+        base += 40 * rng.randint(1, 2) + (200 if pair else 0)
+        trig, win, far = nxt, nxt + 1, nxt + 2
+        sends[trig] = base; sends[win] = base + rng.choice([5, 10, 20, 25]); sends[far] = base + 600
+        for i in (trig, win, far):
+            sid[i] = i
+            body += '<send event="d%d" delay="%dms" id="id%d" uvid="%d"/>' % (i, sends[i], i, 100 + i)
+        nxt += 3
+        acts = ""
+        for what in rng.sample(["cancel-far", "cancel-window", "send-new", "send-now"], rng.randint(1, 3)):
+            if what == "cancel-far":
+                acts += '<cancel sendid="id%d" uvid="%d"/>' % (far, 300 + far); cancels[300 + far] = far
+            elif what == "cancel-window":
+                acts += '<cancel sendid="id%d" uvid="%d"/>' % (win, 300 + win); cancels[300 + win] = win
+            elif what == "send-new":
+                sends[nxt] = 40; sid[nxt] = nxt
+                acts += '<send event="d%d" delay="40ms" id="id%d" uvid="%d"/>' % (nxt, nxt, 100 + nxt); nxt += 1
+            else:
+                acts += '<send event="n%d" uvid="%d"/>' % (trig, 400 + trig)
+        trans += '<transition event="d%d">%s</transition>' % (trig, acts)
+    doc = ('<scxml xmlns="http://www.w3.org/2005/07/scxml" version="1.0" datamodel="null"><state id="s"><onentry>%s</onentry>%s</state></scxml>' % (body, trans))
+    hooks = "%s=%d" % (rng.choice(["delayq.timer.before_deliver"] * 3 + ["delayq.timer.entry", "delayq.timer.after_deliver"]), hold)
+    return doc, dict(delay=sends, sid=sid, cancels=cancels), base + 600 + 3 * hold * len(sends) // 2 + 200, hooks
+
+
 def chart_oracle(toks, meta):
     """sound whatever the scheduling: every judgement is relative to the times at which the <send> and <cancel> elements were
     seen to run. A send is armed between the stamps around its element; a cancel has completed at the stamp after its element."""
@@ -266,13 +298,18 @@ def suite_charts(ctx, n):
                 # nothing sent before the reset may arrive (it would be early for, or a duplicate of, the new incarnation's send)
                 ops = ["T", "q"] + ["b:40", "q"] * rng.randint(0, max(1, total // 80)) + ["r"] + ops[1:]
             lines.append("%s\t-\t%s\t%s" % (eng, ",".join(ops), hexs(doc))); metas.append((doc, meta))
+    for k in range(max(4, n // 2)):
+        doc, meta, total, hooks = window_doc(rng)
+        for eng in ("large", "fast"):
+            ops = ["T", "q"] + ["b:40", "q"] * (total // 40 + 20) + ["w:60", "q"]
+            lines.append("%s\t-\t%s\t%s\t%s" % (eng, ",".join(ops), hexs(doc), hooks)); metas.append((doc + " [schedule hooks %s]" % hooks, meta))
     parts = list(chunks(lines, max(1, (len(lines) + 7) // 8)))
     def work(part):
         rc, h, err = ctx.harness_lines("api", part, variant="asan", timeout=3600)
         if rc != 0 or len(h) != len(part): raise BrokenTie("harness", "uvharness api rc=%s" % rc)
         return h
     with ThreadPoolExecutor(8) as ex: H = [x for part in ex.map(work, parts) for x in part]
-    st = dict(inputs=len(lines), as_expected=0, events=0, cancelled_in_time=0, with_reset=0, pending_at_reset=0, violations=0)
+    st = dict(inputs=len(lines), window_held_open=sum(1 for l in lines if l.count("\t") == 4), as_expected=0, events=0, cancelled_in_time=0, with_reset=0, pending_at_reset=0, violations=0)
     for l, h, (doc, meta) in zip(lines, H, metas):
         toks = h.split(" ")
         st["events"] += sum(1 for t in toks if t.startswith("bpe:d"))
@@ -283,7 +320,7 @@ def suite_charts(ctx, n):
             st["with_reset"] += 1; st["pending_at_reset"] += sum(1 for i in meta["delay"] if "bc:%d" % (100 + i) in toks[:r] and "bpe:d%d" % i not in toks[:r])
             stamp = [t for t in toks[:r] if t.startswith("@")][-1:]
             judged = stamp + toks[r + 1:]
-        why = ("abnormal end %s" % bad) if bad or toks[-1] != "end" else chart_oracle(judged, meta)
+        why = ("abnormal end %s%s" % (bad, " - the session hangs: killed by the harness' 20 s watchdog (deadlock)" if "CRASH:14" in bad else "")) if bad or toks[-1] != "end" else chart_oracle(judged, meta)
         if why is None:
             st["as_expected"] += 1
             st["cancelled_in_time"] += sum(1 for i in meta["delay"] if not any(t == "bpe:d%d" % i for t in toks))
@@ -307,7 +344,7 @@ def run(ctx):
     ctx.coverage["distinct_nontrivial"] = s1["races"]
     ctx.coverage["rule"] = ("random scripts of 2-12 enqueue (delays 1-80 ms, 6 keys, re-used keys replace) / cancel / cancelAll / wait operations against the compiled BasicDelayedEventQueue "
                             "with 0-3 schedule hooks sleeping 3-40 ms at the timer thread's and the canceller's protocol points, plus directed races; non-trivial = a cancel met a timer callback "
-                            "that had already started; charts with 2-6 delayed sends at distinct multiples of 40 ms, sendids shared by several pending sends or not, and immediate or event-triggered cancels, both engines, judged against the times at which the <send>/<cancel> elements were seen to run; every third chart is reset with delayed events pending and run again (the second incarnation is judged)")
+                            "that had already started; charts with 2-6 delayed sends at distinct multiples of 40 ms, sendids shared by several pending sends or not, and immediate or event-triggered cancels, both engines, judged against the times at which the <send>/<cancel> elements were seen to run; every third chart is reset with delayed events pending and run again (the second incarnation is judged); plus charts run with the window between timer expiry and delivery held open 30-60 ms by a schedule hook while the interpreter thread executes <cancel> (of a far timer, of the timer in the window) and <send delay> elements inside it")
     ctx.assumptions += ["libevent fires a timer only when due, once per event_add, one callback at a time; event_del waits for a running callback (trusted base)",
                         "time is compared at millisecond resolution with %d ms granularity granted" % G,
                         "the order of log lines of different threads is the order in which they took the harness' log mutex (inside the queue's locked sections where the protocol needs it)"]
